@@ -1,4 +1,4 @@
-import common, p_vxbase
+import common, p_vxbase, cli_slices
 
 ASSUME = ["paths are normalised relative paths inside the stated universe",
           "the documented-silent case (a uses entry equal to the path of a target that ignores the change) is accepted either way",
@@ -6,6 +6,7 @@ ASSUME = ["paths are normalised relative paths inside the stated universe",
 
 def run(prop, tier):
     r = common.run_vx("c01", tier)
+    cli_slices.merge(r, prop, tier)
     return r, ASSUME
 
 def replay(prop, path):
